@@ -193,7 +193,7 @@ fn mutation_check(m: &Mutation, sink: &Sink) {
     sink.nontrivial();
 }
 
-const HOSTILE_LINES: &[&str] = &["x", "-- y", "++ z", "@@ -1 +1 @@", "diff --git a/x.py b/x.py", "# <block name=\"a\" affects=\":b\">", "# </block>", "\\ No newline at end of file", "--- a/x.py", "+++ b/x.py"];
+const HOSTILE_LINES: &[&str] = &["x", "-- y", "++ z", "@@ -1 +1 @@", "diff --git a/x.py b/x.py", "# <block name=\"a\" affects=\":b\">", "# </block>", "\\ No newline at end of file", "--- a/x.py", "+++ b/x.py", "", " ", "é≤😀 x", "\t# <block>"];
 
 fn hostile_check(pair: &(Vec<u8>, Vec<u8>, bool, u8), sink: &Sink) {
     let (old, new, trailing_newline, context) = pair;
